@@ -805,6 +805,15 @@ func Generate(rng *rand.Rand, full bool) *Manifest {
 			d.Prim = p
 			g.m.tag("typeref:" + p)
 		}
+		// … and a custom typeref over every primitive, all in ONE namespace: whatever the generator
+		// emits once per package for them (init_custom_typerefs) must not depend on map order
+		for _, p := range prims {
+			g.nCustom++
+			d := g.shell("typeref", g.nss[1], "Custom"+exported(p)+strconv.Itoa(g.nCustom))
+			d.Prim = p
+			d.Custom = true
+			g.m.tag("custom-typeref")
+		}
 	}
 	// bodies
 	for _, d := range g.m.Decls {
